@@ -6,8 +6,8 @@ package main
 //   * gen_c03_runner_reset: newRulesRunner overwrites the WHOLE reused runner object (`*rr = rulesRunner{...}` as a statement
 //     of the function body) and the literal names neither src nor filename -- so rr.src is nil when a run starts;
 //   * gen_c03_src_facts: rr.src is mentioned nowhere in the package but in fileBytes; rr.filename is assigned exactly once,
-//     unconditionally, as a statement of run(), from the position of the file being run; nodeText takes its bytes from
-//     rr.fileBytes().
+//     unconditionally, as a statement of run(), and is the name of the file that was PARSED (PositionFor(f.Pos(), false):
+//     //line directives do not count); nodeText takes its bytes from rr.fileBytes().
 // Vocabulary of the translation (anything else is an error -- fails closed): `if c { .. } [else ..]` without init statement,
 // `return e`, `rr.src = e`, `x, err := os.ReadFile(rr.filename)`, `x := e`; slice expressions rr.src, locals, nil,
 // `make([]byte, 0)`, `[]byte{}`; conditions `e == nil`, `e != nil` (slices and the error), `||`, `&&`, `!`.
@@ -360,11 +360,13 @@ func genC03Src(repo string, args []string) (string, error) {
 	runRecv := recvOf(run)
 	direct := 0
 	for _, s := range run.Body.List {
-		if normStmt(fset, s) == normText(runRecv+".filename = "+runRecv+".ctx.Fset.Position(f.Pos()).Filename") {
+		// PositionFor(.., false): the name of the file that was PARSED -- a //line directive in front of the package clause names
+		// another file (the grammar / template the code was generated from), which may exist too
+		if normStmt(fset, s) == normText(runRecv+".filename = "+runRecv+".ctx.Fset.PositionFor(f.Pos(), false).Filename") {
 			direct++
 		}
 	}
-	add("rr.filename is assigned exactly once in the package: unconditionally, as a statement of run(), from the position of the file being run",
+	add("rr.filename is assigned exactly once in the package: unconditionally, as a statement of run(), and it is the name of the file that was parsed (the position of the file being run, //line directives ignored)",
 		runRecv != "" && fnAssigns == 1 && fnAssignsOutsideRun == 0 && direct == 1 && len(run.Type.Params.List) == 1 &&
 			len(run.Type.Params.List[0].Names) == 1 && run.Type.Params.List[0].Names[0].Name == "f")
 	ns := c03StmtSet(fset, nt)
